@@ -1,6 +1,6 @@
 #!/bin/sh
 # tools/run_seeded.sh [id ...]   run each seeded change against the check of the property it is meant to break
-cd /verif
+V="$(cd "$(dirname "$0")/.." && pwd)"; cd "$V"
 IDS="$@"; [ -z "$IDS" ] && IDS=$(ls seeded)
 for id in $IDS; do
   pid=$(echo $id | cut -d- -f1)
